@@ -131,6 +131,8 @@ REQS = {
                body=b'{"n": 1}'),
     'p2': dict(method='POST', raw_path='/b/8', query='', headers=[('X-Rid', 'r-p2'), ('Content-Type', 'application/json')],
                body=b'{"n": [2, 2]}'),
+    'f1': dict(method='POST', raw_path='/a/8', query='', headers=[('X-Rid', 'r-f1'), ('Content-Type', 'application/x-www-form-urlencoded'),
+                                                                  ('Accept', 'text/plain, */*;q=0.5')], body=b'n=1&m=two'),
     'o': dict(method='OPTIONS', raw_path='/a/1', query='', headers=[('X-Rid', 'r-o')]),
     'm': dict(method='DELETE', raw_path='/b/3', query='', headers=[('X-Rid', 'r-m')]),
     'nf': dict(method='GET', raw_path='/nope', query='', headers=[('X-Rid', 'r-nf')]),
@@ -182,6 +184,9 @@ def make_select(level):
             return True
         if level == 'app' and fn.endswith('falcon/app.py') and code.co_name in APP_FUNCS:
             return True
+        if level == 'all':
+            # every line of every falcon module (one preemption anywhere in the framework)
+            return '/falcon/' in fn and '/falcon/testing/' not in fn
         return False
     return select
 
@@ -191,7 +196,9 @@ def thr_run_factory(size, names, level):
 
     def run(ch):
         app = build_app('wsgi', size)
-        s = thr.Scheduler(ch, select)
+        if level == 'all':
+            wsgi_req(app, 'nf')        # the lazy compile race is the 'router' configurations' subject
+        s = thr.Scheduler(ch, select, max_points=200000)
         thr.CURRENT = s
         try:
             res = s.run([(lambda n=n: wsgi_req(app, n)) for n in names])
@@ -448,13 +455,18 @@ def seq_batch(batch, rep):
 def plan(tier, seed):
     if tier == 'quick':
         thr_cfgs = [('small', ('a1', 'b2'), 'router', 2), ('small', ('a1', 'a2'), 'router', 2), ('small', ('bx', 'nf'), 'router', 1),
-                    ('full', ('c', 'd'), 'router', 1), ('small', ('a1', 'b2', 'nf'), 'router', 1)]
+                    ('full', ('c', 'd'), 'router', 1), ('small', ('a1', 'b2', 'nf'), 'router', 1),
+                    # one preemption at ANY line of the framework, on a warm router: requests using different media types,
+                    # Accept headers, error paths (shared resolver / negotiation caches, per-request objects)
+                    ('full', ('p1', 'f1'), 'all', 1), ('full', ('e2', 'b2'), 'all', 1)]
         aio_cfgs = [('full', ('a1', 'b2'), False), ('full', ('p1', 'p2'), False), ('full', ('p1', 'e1'), True), ('full', ('c', 'e2'), False)]
         names = ['a1', 'b2', 'c', 'e1', 'e2', 'p1', 'o', 'nf']
         perm_k = 3
     else:
         thr_cfgs = [('small', ('a1', 'b2'), 'router', 3), ('small', ('a1', 'b2', 'nf'), 'router', 2), ('full', ('c', 'd'), 'router', 2),
-                    ('full', ('a1', 'e1'), 'router', 2), ('small', ('a1', 'b2'), 'app', 2), ('full', ('p1', 'b2'), 'app', 1)]
+                    ('full', ('a1', 'e1'), 'router', 2), ('small', ('a1', 'b2'), 'app', 2), ('full', ('p1', 'b2'), 'app', 1),
+                    ('full', ('p1', 'f1'), 'all', 1), ('full', ('e2', 'b2'), 'all', 1), ('full', ('f1', 'p2'), 'all', 1),
+                    ('full', ('a1', 'p1', 'f1'), 'all', 1), ('full', ('o', 'm'), 'all', 1)]
         aio_cfgs = [('full', ('a1', 'b2'), False), ('full', ('p1', 'p2'), True), ('full', ('p1', 'e1'), True), ('full', ('c', 'e2'), False),
                     ('full', ('a1', 'p1', 'e2'), False), ('full', ('p1', 'p2', 'nf'), False)]
         names = list(REQS)
